@@ -63,6 +63,9 @@ def _walk(t):
 
 def run(ctx):
     model = ctx.model
+    shared.r_wire(ctx, "R01.wire")
+    shared.r_collation(ctx, "R01.exact", ('messages', 'mailboxes'),
+                       'an open replays (and a close deletes) the messages of another mailbox')
     shared.r_durable(ctx, "R01.durable", ("chan",),
                      'after a restart the stored messages (or the deletion of a mailbox) are not what the clients were told')
     shared.r_startup(ctx, "R01.startup", ('messages',),
